@@ -92,7 +92,11 @@ def de_table():
         "Struct/Tuple": [(r"std:next" + LOOP(r"rec:\S* std:push std:next"), "Array")],
         "Map": [(r"R64 std:next" + LOOP(r"R64 take:len std:from_utf8 rec:@Map/val std:map_insert std:next"), "Object")],
         "Struct/Struct": [(r"std:next" + LOOP(r"rec:ty std:map_insert std:next"), "Object")],
-        "Enum": [(r"R64 std:get", "String"), (r"R64 std:get rec:\S* std:map_insert", "Object")],
+        # the payload of a tuple / struct variant is decoded like a tuple / struct (written out, through a helper, or by walking a schema
+        # node built on the spot, which is analysed in place)
+        "Enum": [(r"R64 std:get", "String"), (r"R64 std:get rec:\S* std:map_insert", "Object"),
+                 (r"R64 std:get std:next" + LOOP(r"rec:\S* std:push std:next") + r" std:map_insert", "Object"),
+                 (r"R64 std:get std:next" + LOOP(r"rec:\S* std:map_insert std:next") + r" std:map_insert", "Object")],
     }
     return t
 
@@ -224,7 +228,7 @@ def check_tables(run_, F, helpers, RULE):
                     missing = set()
             if not probs and missing and arm not in ("Enum",):
                 probs.append("expected behaviour never occurs: %s" % [table[arm][i] for i in sorted(missing)])
-            if not probs and arm == "Enum" and len(seen_rows) < (4 if which == "ser" else 2):
+            if not probs and arm == "Enum" and len(seen_rows) < 4:
                 probs.append("not all enum payload forms are handled")
             run_.check(not probs, RULE, key, probs[0] if probs else "wire effects and JSON shape as tabulated (%d path(s))" % len(ps), A.fn.where(), found=probs[:4])
 
